@@ -204,6 +204,19 @@ theorem C03_unfired_shared (c : Cfg) (evs : List Ev) (s : St) (hc : c.perInstanc
     have h1 := hS.unfCnt
     omega
 
+/-- the unfired clause without truncating subtractions: every acquired item is fired, discarded or unfired, and with a shared
+profile fewer items go unfired than instances were started (so none when one instance was started) -/
+theorem C03_unfired_shared_exact (c : Cfg) (evs : List Ev) (s : St) (hc : c.perInstance = false)
+    (hrun : run c (init c) evs = some s) (ht : s.terminal = true) :
+    s.acquired = s.fired + s.discarded + s.unfired ∧ (0 < s.started → s.unfired + 1 ≤ s.started) ∧
+    s.started ≤ c.instances := by
+  have h1 := (C03_release c evs s hrun ht).2
+  have h2 := (C03_unfired_shared c evs s hc hrun ht).1
+  have h3 := (reach_invA hrun).startedLe
+  refine ⟨h1, ?_, h3⟩
+  intro hpos
+  omega
+
 /-- one full profile per instance: no acquired item ever goes unfired -/
 theorem C03_unfired_per_instance (c : Cfg) (evs : List Ev) (s : St) (hc : c.perInstance = true)
     (hrun : run c (init c) evs = some s) (ht : s.terminal = true) :
